@@ -105,6 +105,7 @@ Inductive errk : Type :=
 | ManifestFunction
 | CompareFunctions
 | InvalidStdFuncArgType
+| NumberOverflow                 (* a literal that is not a finite double (check_number_value) *)
 | OutOfFragment (what : string).   (* the model does not cover this case *)
 
 Definition res (A : Type) : Type := (list str * outcome A errk)%type.
@@ -180,6 +181,11 @@ Definition visible_sorted (fs : list field) : list (name * expr) :=
 
 Definition num_limit : Z := 9007199254740992.   (* 2^53: integers are exact doubles up to here *)
 Definition in_range (z : Z) : bool := (Z.leb (- num_limit) z) && (Z.leb z num_limit).
+
+(* an integer literal of magnitude >= 2^1024 certainly rounds to an infinite double: the
+   evaluator reports NumberOverflow when the literal is evaluated (expr.rs Expr::Number ->
+   check_number_value).  Between 2^53 and 2^1024 the model does not commit. *)
+Definition overflows (z : Z) : bool := Z.leb (2 ^ 1024) (Z.abs z).
 
 Definition digit_cp (d : N) : N := (48 + d)%N.
 
@@ -311,7 +317,10 @@ Fixpoint eval (n : nat) (r : env) (e : expr) {struct n} : res value :=
     match e with
     | ENull => ret VNull
     | EBool b => ret (VBool b)
-    | ENum z => if in_range z then ret (VNum z) else fail (OutOfFragment "number beyond 2^53")
+    | ENum z =>
+        if in_range z then ret (VNum z)
+        else if overflows z then fail NumberOverflow
+        else fail (OutOfFragment "number beyond 2^53")
     | EStr s => ret (VStr s)
     | EVar x =>
         match lookup x r with
